@@ -346,8 +346,8 @@ def run_check(pid, tier, seed, replay=None):
                              "\n".join(json.dumps(e) for e in history_prefix(events, line)) + "\n")
         lib.log("note: mismatch attributed to %s (not %s), ignored here (%s): %s" % (prop, pid, rp, body[:300]))
 
-    # vacuity guards
-    if not replay:
+    # vacuity guards (only meaningful when nothing was flagged: a defect makes many histories deviate)
+    if not replay and rc == 0 and not run.foreign:
         need = {"C09": ["att:accepted", "Query:Head", "Query:FindHead", "uj:ok"],
                 "C10": ["prune:nonempty", "uj:refused", "uj:ok", "prune:sinkfailed", "SetPin"],
                 "C11": ["Query:CanonicalChain", "Query:InSubtree", "Query:ClosestToSlot", "Query:CanonAtSlot",
